@@ -98,6 +98,8 @@ pub enum Op8 {
     Drop(u8),
     /// acquire (op index into `acquire_ops`) inside a closure that then panics
     AcquireThenPanic(u8),
+    /// acquire from a destructor that runs while the thread is unwinding from another panic
+    AcquireDuringUnwind(u8),
 }
 
 /// holdings of a guard: (key, exclusive?)
@@ -384,6 +386,9 @@ pub fn alphabet(max_guards: usize) -> Vec<Op8> {
     for (i, _) in acquire_ops().iter().enumerate() {
         v.push(Op8::AcquireThenPanic(i as u8));
     }
+    for (i, _) in acquire_ops().iter().enumerate() {
+        v.push(Op8::AcquireDuringUnwind(i as u8));
+    }
     v
 }
 
@@ -501,6 +506,48 @@ pub fn run_history(h: &[Op8], max_guards: usize) -> Result<Option<Vec<u8>>, Fail
                 let got = if msg == "C08-INNER-GOT" { Cls::Guard } else if msg == "C08-INNER-NONE" { Cls::None } else { Cls::Panic };
                 if got != cls {
                     return Err(fail("outcome-differs-from-borrow-model", format!("{:?} (then panic) gave {:?}, the borrow model says {:?}", aop, got, cls)));
+                }
+            }
+            Op8::AcquireDuringUnwind(a) => {
+                let aop = acq[a as usize];
+                let (mem, whole_opt) = members(aop).unwrap();
+                let (cls, hd) = m.acquire(&mem, whole_opt);
+                m.give(&hd); // the guard is dropped inside the destructor
+                struct OnDrop<F: FnMut()>(F);
+                impl<F: FnMut()> Drop for OnDrop<F> {
+                    fn drop(&mut self) {
+                        (self.0)()
+                    }
+                }
+                let mut got: Option<Result<Cls, String>> = None;
+                let _ = catch_unwind(AssertUnwindSafe(|| {
+                    let _g = OnDrop(|| {
+                        debug_assert!(std::thread::panicking());
+                        got = Some(match catch_unwind(AssertUnwindSafe(|| acquire_real(&world, &meta, aop))) {
+                            Ok(Ok(Some(g))) => {
+                                drop(g);
+                                Ok(Cls::Guard)
+                            }
+                            Ok(Ok(None)) => Ok(Cls::None),
+                            Ok(Err(e)) => Err(e),
+                            Err(_) => Ok(Cls::Panic),
+                        });
+                    });
+                    panic!("C08-OUTER");
+                }));
+                match got {
+                    Some(Ok(g)) if g == cls => {}
+                    Some(Ok(g)) => {
+                        let sig = match (g, cls) {
+                            (Cls::Guard, Cls::Panic) => "aliasing-guard-returned",
+                            (Cls::None, Cls::Panic) => "conflict-returns-none-instead-of-panic",
+                            (Cls::Panic, _) => "unexpected-panic",
+                            _ => "outcome-differs-from-borrow-model",
+                        };
+                        return Err(fail(sig, format!("{:?} issued from a destructor while the thread was unwinding gave {:?}, the borrow model says {:?}", aop, g, cls)));
+                    }
+                    Some(Err(e)) => return Err(fail("absent-resource-yields-guard", e)),
+                    None => return Err(fail("harness", "destructor did not run".into())),
                 }
             }
             aop => {
